@@ -9,7 +9,7 @@ LEAN_MODULES = ["Econf.Props.C05"]
 THEOREMS = ["Econf.C05_step_inert", "Econf.C05_blank_inert", "Econf.C05_lines_inert", "Econf.C05_insert_comments"]
 RULE = ("conventional single-line-value documents x random insertion points x comment-line texts over the printable alphabet with "
         "comment characters, delimiters, quotes and brackets over-represented, with and without indentation, the comment sets {#, ;, #;, default} and longer ones (4, 9, 11 characters with the usual ones last; a character named twice); the file "
-        "is read with and without the inserted lines and the two results are compared (in a third of the scenarios after an earlier read with other comment characters in the same process); distinct by (document, inserted lines)")
+        "is read with and without the inserted lines (a fifth of the documents in python style, through an object created with PYTHON_STYLE=1 and the layered read) and the two results are compared (in a third of the scenarios after an earlier read with other comment characters in the same process); distinct by (document, inserted lines)")
 
 NASTY = [b"old=1 # disabled", b"# heading", b" c", b"[section]", b"[broken", b"key value", b"k=v", b'"quoted', b"=", b"]", b"a=b # c ; d",
          b"", b" ", b"\t[x] y", b"#", b";", b"#;#;", b'k="v" # t']
@@ -32,6 +32,15 @@ def make(rng, sid):
     comment = rng.choice(docs.COMMENTS + docs.COMMENTS + LONG_SETS)
     g = gen_doc.Gen(rng, delim, comment, single_line=True)
     items = g.document(rng.choice([2, 6, 12, 25]))
+    # a fifth of the documents are read in python style (PYTHON_STYLE=1: indentation continues a value); there every entry and
+    # header starts in column 0, so that the only indented lines are inserted comment lines
+    python = comment != b"" and rng.random() < 0.2
+    if python:
+        # (python style takes a comment behind a header for text after the section name)
+        items = [it for it in items if not (it["kind"] == "section" and it.get("tc") is not None)]
+        for it in items:
+            if it["kind"] in ("entry", "section"):
+                it["lines"] = [it["lines"][0].lstrip(b" \t\x0b\x0c\r")] + it["lines"][1:]
     # inserted comment lines
     ins = []
     for _ in range(rng.randint(1, 4)):
@@ -43,7 +52,18 @@ def make(rng, sid):
     a = gen_doc.render(items)
     b = gen_doc.render(with_c)
     s = Scenario(sid, {"a": a, "b": b, "delim": delim, "comment": comment, "cls": g.cls, "inserted": [it["lines"][0] for _, it in ins],
-                       "items": items, "with_c": with_c})
+                       "items": items, "with_c": with_c, "python": python})
+    if python:
+        # the option needs an object created with it and the layered read: <dir>/<project>/<name>.<suffix>
+        s.file(b"/etc/pa/doc.conf", a)
+        s.file(b"/etc/pb/doc.conf", b)
+        for slot, prj in ((0, b"pa"), (1, b"pb")):
+            s.add("NEW", slot, "opt", h(b"PYTHON_STYLE=1"))
+            s.add("RC", slot, h(prj), h(b"/usr/etc"), h(b"doc"), h(b"conf"), h(delim), h(comment))
+        s.add("RAW", 0); s.add("DUMP", 0)
+        s.add("RAW", 1); s.add("DUMP", 1)
+        s.add("FREE", 0); s.add("FREE", 1)
+        return s
     s.file(b"/a.conf", a)
     s.file(b"/b.conf", b)
     if rng.random() < 0.3:
@@ -69,7 +89,7 @@ def scenarios(tier, rng):
 def oracle(s, lines):
     if "a" not in s.meta:
         return None
-    rfs = [l for l in lines if l.startswith("rf ")]
+    rfs = ["rf" + l[2:] for l in lines if l.startswith(("rf ", "rc "))]
     if s.meta.get("prior"):
         rfs = rfs[1:]
     if len(rfs) != 2 or rfs[0] != "rf E0 obj":
@@ -84,6 +104,8 @@ def oracle(s, lines):
     va, vb = parse_views(lines)[:2]
     if va.groups != vb.groups:
         return "inserting comment lines changed the sections: %r -> %r" % (va.groups, vb.groups)
+    if s.meta.get("python"):
+        return None     # what a python-style document means is C15's subject; here: the inserted lines changed nothing
     # and both agree with the grammar's expectation
     sections, entries = gen_doc.expected(s.meta["items"])
     want = [(e["group"], e["key"], e["value"], e["q"]) for e in entries]
@@ -101,7 +123,7 @@ def nontrivial(s, lines):
 def histogram(s, lines):
     if "a" not in s.meta:
         return ["corpus"]
-    ks = ["class_" + s.meta["cls"], "comment_set_" + s.meta["comment"].decode()]
+    ks = ["class_" + s.meta["cls"], "comment_set_" + s.meta["comment"].decode()] + (["python_style"] if s.meta.get("python") else [])
     for l in s.meta["inserted"]:
         ks.append("inserted_indented" if l[:1] in b" \t\x0b\x0c\r" and l[:1] else "inserted_at_col0")
         body = l.lstrip(b" \t\x0b\x0c\r")[1:]
